@@ -32,6 +32,8 @@ from common import cz, cnat, cbool, cfloat, cstr, clist, copt, cpair
 THEOREMS = [
     'C17_tr_card_m_rejected',
     'C17_tr_lengths_never_13',
+    'C17_tr_arity_exact',
+    'C17_tr_card_arity_rejected',
     'C17_inline_trcl_m_rejected',
     'C17_inline_fill_m_rejected',
     'C17_inline_m_rejected',
@@ -58,6 +60,7 @@ THEOREMS = [
     'C17_imp_unequal_rejected',
     'C17_mixed_fractions_rejected',
     'C17_latopt_exact',
+    'C17_latopt_wellformed_accepted',
     'C17_latopt_malformed_rejected',
     'C17_finished_run_is_clean',
 ]
@@ -156,6 +159,71 @@ WITNESSES = {
     'facet_zero_selects_last': (
         't\n1 0 -1.0 imp:n=1\n2 0 1 imp:n=0\n\n1 rcc 0 0 0 0 0 2 1\n\n', []),
 }
+
+
+# minimised corpus: one small deck per rejected fault class, with the exception
+# class the repaired code answers with (run on every check, whatever the seed)
+_BASE = ('t\n1 0 -1 {c1} imp:n=1\n2 0 1 -2 imp:n=1\n3 0 2 imp:n=0\n{cells}\n'
+         '1 so 1\n2 rcc 0 0 0 0 0 5 3\n{surfs}\n{data}\n')
+_LAT = ('t\n1 0 -11 12 -13 14 u=1 lat=1 {fill} imp:n=1\n2 0 -5 6 fill=1 imp:n=1\n'
+        '3 0 -6 u=2 imp:n=1\n4 0 -6 imp:n=1\n5 0 5 imp:n=0\n\n'
+        '11 px 1\n12 px -1\n13 py 1\n14 py -1\n5 so 10\n6 so 0.5\n\n')
+
+
+def _b(c1='', cells='', surfs='', data=''):
+    return _BASE.format(c1=c1, cells=cells, surfs=surfs, data=data)
+
+
+CORPUS = [
+    ('control', _b(), [], None),
+    ('control_lattice', _LAT.format(fill='fill=0:1 0:1 0:0 2 2 2 2'), [], None),
+    ('control_latopt', _LAT.format(fill='fill=2'), ['--lattice', '1,0:1,0:1'],
+     None),
+    ('tr_card_m', _b(data='tr4 0 0 0 1 0 0 0 1 0 0 0 1 -1'), [],
+     'ETransformation'),
+    ('star_tr_card_m', _b(data='*tr4 0 0 0 0 90 90 90 0 90 90 90 0 -1'), [],
+     'ETransformation'),
+    ('trcl_m', _b(c1='trcl=(0 0 0 1 0 0 0 1 0 0 0 1 -1)'), [],
+     'ETransformation'),
+    ('star_trcl_m', _b(c1='*trcl=(0 0 0 0 90 90 90 0 90 90 90 0 -1)'), [],
+     'ETransformation'),
+    ('fill_m', _b(c1='fill=3 (0 0 0 1 0 0 0 1 0 0 0 1 -1)',
+                  cells='4 0 -1 u=3 imp:n=1\n'), [], 'ETransformation'),
+    ('star_fill_m', _b(c1='*fill=3 (0 0 0 0 90 90 90 0 90 90 90 0 -1)',
+                       cells='4 0 -1 u=3 imp:n=1\n'), [], 'ETransformation'),
+    ('lattice_no_opt', _LAT.format(fill='fill=2'), [], 'EMissingLatticeOpt'),
+    ('lattice_dims_few', _LAT.format(fill='fill=0:1 2 2'), [], 'ELattice'),
+    ('lattice_dims_many', _LAT.format(fill='fill=0:1 0:1 0:1 2 7r'), [],
+     'ELattice'),
+    ('latopt_dims', _LAT.format(fill='fill=2'), ['--lattice', '1,0:1'],
+     'ELattice'),
+    ('latopt_malformed', _LAT.format(fill='fill=2'), ['--lattice', '1,0-1,0:1'],
+     'ELatNeeds2'),
+    ('latopt_four', _LAT.format(fill='fill=2'),
+     ['--lattice', '1,0:1,0:1,0:0,0:0'], 'ELatTooMany'),
+    ('p_arity', _b(surfs='3 p 1 0 0 1 2'), [], 'EValue'),
+    ('s_arity', _b(surfs='3 s 1 0 0'), [], 'EType'),
+    ('kz_arity', _b(surfs='3 kz 1'), [], 'EIndex'),
+    ('tz_arity', _b(surfs='3 tz 0 0 0 5 1 1 1'), [], 'EValue'),
+    ('x_arity', _b(surfs='3 x 1 2 3'), [], 'ENotImplemented'),
+    ('rpp_arity', _b(surfs='3 rpp 0 1 0 1 0'), [], 'EMacroBody'),
+    ('rhp_arity', _b(surfs='3 rhp 0 0 0 0 0 5 1 0 0 0 1 0'), [], 'EMacroBody'),
+    ('unknown_mnemonic', _b(surfs='3 qx 1'), [], 'EValue'),
+    ('t_mnemonic', _b(surfs='3 t 0 0 0 5 1 1'), [], 'EKey'),
+    ('facet_range', _b(c1='2.4'), [], 'ECellConversion'),
+    ('facet_range_trcl', _b(c1='2.4 trcl=(1 0 0)'), [], 'EIndex'),
+    ('facet_zero_trcl', _b(c1='2.0 trcl=(1 0 0)'), [], 'EIndex'),
+    ('fill_array_short', _LAT.format(fill='fill=0:1 0:1 0:0 2 2 2'), [],
+     'EParseCell'),
+    ('fill_array_plus1', _LAT.format(fill='fill=0:1 0:1 0:0 2 2 2 2 9'), [],
+     'EKey'),
+    ('fill_array_plus4', _LAT.format(fill='fill=0:1 0:1 0:0 2 2 2 2 0 0 0 1'),
+     [], 'ETransformation'),
+    ('imp_unequal', _b(data='imp:p 1 1 1\nimp:e 1 1'), [], 'EParseCell'),
+    ('mixed_fractions', _b(data='m1 1001 0.5 8016 -0.5'), [], 'EMixedSigns'),
+    ('lattice_three_planes', _LAT.format(fill='fill=0:1 2 2').replace(
+        '-11 12 -13 14', '-11 12 -13'), [], 'ELattice'),
+]
 
 
 # ---------------------------------------------------------------------------
@@ -574,6 +642,39 @@ def run(res, tier, seed, proofs_ok):
                           f'malformed deck converted normally ({cls})',
                           {'input': {'deck_text': text, 'args': args}},
                           cls=cls, found_input=True)
+
+    bad_corpus = []
+    for name, text, args, expected in CORPUS:
+        with warnings.catch_warnings():
+            warnings.simplefilter('ignore')
+            conv = impl.convert(text, args, keep_stdout=False)
+        got = None if conv.ok else G.err_of(conv.exc, conv.msg)
+        res.seen(('corpus', name))
+        res.count('corpus:' + name + ':' + (got or 'ok'))
+        if got != expected:
+            bad_corpus.append(name)
+            if expected is None:
+                what = (f'corpus deck {name} (valid) rejected: {conv.exc}: '
+                        f'{conv.msg[:150]}')
+            elif got is None:
+                what = (f'corpus deck {name} (fault: must be rejected with '
+                        f'{expected}) converted normally')
+            else:
+                what = None     # still rejected, by another exception class
+            if what:
+                res.violation('impl-violation', what,
+                              {'input': {'deck_text': text, 'args': args},
+                               'expected': expected}, found_input=True)
+            else:
+                res.violation('correspondence',
+                              f'corpus deck {name}: rejected with {got} '
+                              f'instead of {expected}',
+                              {'input': {'deck_text': text, 'args': args},
+                               'expected': expected,
+                               'theorem_or_correspondence': 'corpus'},
+                              found_input=False)
+    res.obligation(f'corpus ({len(CORPUS)} minimised decks: expected outcome)',
+                   not bad_corpus, ', '.join(bad_corpus))
 
     # ---- 2a. strings ------------------------------------------------------
     ints = gen_int_strings(rng, 300 if quick else 3000)
